@@ -5,7 +5,7 @@ import (
 	"fmt"
 	"os"
 	"path/filepath"
-	"regexp"
+	"strconv"
 	"strings"
 	"sync"
 	"time"
@@ -117,6 +117,20 @@ func (w *wlock) Drive(s *simrt.Sched, out *RunResult) {
 	}
 	_ = pidOwner
 	var byName map[string]*simrt.Proc
+	decision := map[string]string{} // per process: outcome of its last look at the lock file
+	simos.ProbeHook = func(by *simrt.Proc, pid int, alive bool) {
+		if by == nil {
+			return
+		}
+		mu.Lock()
+		defer mu.Unlock()
+		if alive {
+			decision[by.Name] = "live"
+		} else {
+			decision[by.Name] = "stale"
+		}
+	}
+	defer func() { simos.ProbeHook = nil }()
 	simos.Trace = func(p *simrt.Proc, op, path string) {
 		if path != lockFile {
 			return
@@ -125,8 +139,17 @@ func (w *wlock) Drive(s *simrt.Sched, out *RunResult) {
 		defer mu.Unlock()
 		switch op {
 		case "open":
+			delete(decision, p.Name) // a new acquisition attempt
 			if _, err := os.Lstat(lockFile); err != nil {
 				creator = p.Name // O_CREATE|O_EXCL is about to succeed
+			}
+		case "readfile":
+			// what the reader is about to see: no file / no valid pid means "stale" without a probe
+			seen := strings.TrimSpace(readFileStr(lockFile))
+			if _, err := strconv.Atoi(seen); err != nil {
+				decision[p.Name] = "stale"
+			} else {
+				delete(decision, p.Name) // decided by the liveness probe that follows
 			}
 		case "remove":
 			content := strings.TrimSpace(readFileStr(lockFile))
@@ -142,7 +165,17 @@ func (w *wlock) Drive(s *simrt.Sched, out *RunResult) {
 			if acquired[p.Name] {
 				role = "by-former-holder"
 			}
-			where := "@" + stableRemoveSite(simos.TraceSite) + "/" + role
+			// ... and on what basis: right after this process itself found the lock stale (the
+			// locker's recovery protocol), as its own release, or without either (e.g. a
+			// clean-up on an error path that removes whatever is there)
+			basis := "release"
+			if role == "by-contender" {
+				basis = "without-a-stale-decision"
+				if decision[p.Name] == "stale" {
+					basis = "after-stale-decision"
+				}
+			}
+			where := "/" + role + "/" + basis
 			switch {
 			case owner != "" && owner != p.Name && !byName[owner].Dead():
 				badRemovals = append(badRemovals, "removed-lock-of-live-holder"+where)
@@ -263,30 +296,3 @@ func readFileStr(p string) string {
 	}
 	return string(b)
 }
-
-// stableRemoveSite names a removal site of the locker by its ordinal among the os.Remove calls
-// of workspace_locker.go (in source order) instead of by its line, so that edits that only
-// shift lines do not change the identity of a known finding. Falls back to file:line.
-var removeSiteOrdinals map[string]string
-
-func stableRemoveSite(site string) string {
-	if removeSiteOrdinals == nil {
-		removeSiteOrdinals = map[string]string{}
-		src, err := os.ReadFile(filepath.Join(os.Getenv("SIM_SCRATCH"), "grog", "internal", "locking", "workspace_locker.go"))
-		if err == nil {
-			n := 0
-			for _, m := range reRemoveSite.FindAllStringSubmatch(string(src), -1) {
-				if _, dup := removeSiteOrdinals[m[1]]; !dup {
-					n++
-					removeSiteOrdinals[m[1]] = fmt.Sprintf("locking/workspace_locker.go:remove#%d", n)
-				}
-			}
-		}
-	}
-	if s, ok := removeSiteOrdinals[site]; ok {
-		return s
-	}
-	return site
-}
-
-var reRemoveSite = regexp.MustCompile(`simos\.Remove\([^\n]*?"(locking/workspace_locker\.go:\d+)"\)`)
